@@ -3,6 +3,8 @@
    enc_* are the wire forms (proved in C03 to be what the writers emit); `tail` is whatever
    follows the section in the stream; both sides return Ok with the same rest of the stream,
    i.e. the same status and the same end position. *)
+From Sbdf Require Import ImpCall Gen.Prog ImpFacts ImpFacts7 ImpFactsFrame.
+From Coq Require Import List.
 From Sbdf Require Import Slice PrimFacts ObjFacts VaFacts SliceFacts.
 
 Theorem C07_string_skip : forall swp s tail, zlen s < 2147483647 ->
@@ -56,3 +58,16 @@ Print Assumptions C07_mask_all.
 Example C07_mask_example : forall a b c : cs va,
   mask (Some [1; 0; 1]) [a; b; c] = [Some (owned_cs a); None; Some (owned_cs c)].
 Proof. reflexivity. Qed.
+
+(* the string skipper from the source: sbdf_skip_string of src/internals.c (translated on every run,
+   with its call of sbdf_read_int32 and its fseek) returns on EVERY byte stream what the model's
+   skip_string returns, and leaves the stream where the model leaves it - which is where the model's
+   read_string ends (skip_string_exact above). *)
+Theorem C07_source_skip_string : forall s B, Forall byte s ->
+  exists f0, forall f, (f0 <= f)%nat ->
+  match skip_string false s with
+  | Ok (_, s') => exists fin, callE prog_env f prog_sbdf_skip_string [tok] s B = OReturn (VInt SBDF_OK) fin /\ inb fin = s' /\ outb fin = []
+  | Err st => exists fin, callE prog_env f prog_sbdf_skip_string [tok] s B = OReturn (VInt st) fin /\ outb fin = []
+  end.
+Proof. exact skip_string_source. Qed.
+Print Assumptions C07_source_skip_string.
